@@ -305,9 +305,52 @@ def rule_log_cleaning(ctx, r):
     r.check(not others, con + "::callers", "clean_logs is called only by run (or helpers only run calls)", f"clean_logs is also called from {[o.qual for o in others]}", cl.where)
 
 
+NASTY_SPEC = "\n    first line\n      nested 'quoted  two  spaces'\n    cat <<EOF\n        heredoc body\n    EOF\n    trailing blanks   \n\n"
+
+
+def rule_spec_verbatim(ctx, r):
+    """What the user writes after `<<` (or passes as spec=) is the text the script builders receive: no dedent, strip or re-wrapping on the way
+    (leading whitespace is significant in here-documents, quoted strings and embedded code)."""
+    from .evalhelpers import make_target
+    idx = ctx.index
+    tgt = idx.cls("gwf.core:Target")
+    m = idx.method(tgt, "__lshift__")
+    con = f"{tgt.module.relpath}::Target.__lshift__"
+    if m is None:
+        r.violation(con, "Target.__lshift__ not found: `target << spec` is how a directly defined target gets its spec", tgt.where)
+    else:
+        o = make_target(ctx, "T")
+        try:
+            ret = PureInterp(ctx).call(m, (NASTY_SPEC,), {}, self_obj=o)
+            got = getattr(o, "spec", None)
+            r.check(got == NASTY_SPEC and ret is o, con, "`target << spec` stores the text unchanged and returns the target",
+                    f"`target << spec` with an indented multi-line spec stores {got!r} (returns {'the target' if ret is o else ret!r}); expected the text exactly as written "
+                    f"({NASTY_SPEC!r}): the job script no longer runs the spec verbatim", m.where)
+        except Raised as exc:
+            r.violation(con, f"`target << spec` raises {exc.kind}: {exc.detail[:80]}", m.where)
+        except Unsupported as exc:
+            r.info(con, f"not evaluated ({exc})")
+    # the spec field itself: no converter that rewrites the text
+    for fname, _ann, value in tgt.fields:
+        if fname != "spec" or not isinstance(value, ast.Call):
+            continue
+        conv = next((k.value for k in value.keywords if k.arg == "converter"), None)
+        if conv is None:
+            r.ok(f"{tgt.module.relpath}::Target.spec", "the spec field has no converter", tgt.where)
+            continue
+        try:
+            interp = PureInterp(ctx)
+            got = interp.apply(interp.eval(conv, {}, tgt.module), [NASTY_SPEC], {}, 0)
+            r.check(got == NASTY_SPEC, f"{tgt.module.relpath}::Target.spec", "the spec field's converter is the identity on text",
+                    f"the spec field's converter turns an indented multi-line spec into {got!r}: the job script no longer runs the spec verbatim", tgt.where)
+        except (Raised, Unsupported) as exc:
+            r.violation(f"{tgt.module.relpath}::Target.spec", f"the spec field has a converter that cannot be shown to keep the text ({exc})", tgt.where)
+
+
 def run(ctx):
     r1 = ctx.rule("R1", "script assembly: shebang, directives, quoted cd, set -e, then the spec verbatim (three sibling builders)", min_instances=10)
     rule_assembly(ctx, r1)
+    rule_spec_verbatim(ctx, r1)
     r3 = ctx.rule("R3", "log paths written by the schedulers / the local pool are the ones `gwf logs` reads; log modes", min_instances=7)
     rule_log_paths(ctx, r3)
     from .shared import rule_factory_default
